@@ -38,6 +38,9 @@ func opReserve(id string, seat int) concOp {
 		return errStr(td.te.PlayerReserve(pt.JoinPlayer{PlayerID: id, RedeemChips: 5, Seat: seat}))
 	}}
 }
+func opJoin(id string) concOp {
+	return concOp{name: fmt.Sprintf("join(%s)", id), do: func(td *TD) string { return errStr(td.te.PlayerJoin(id)) }}
+}
 func opLeave(ids ...string) concOp {
 	return concOp{name: fmt.Sprintf("leave(%v)", ids), do: func(td *TD) string { return errStr(td.te.PlayersLeave(ids)) }}
 }
@@ -235,6 +238,11 @@ func concScenarios(tier string) []*concScenario {
 		add(s+"leave-vs-leave", seats, seated(2), opLeave("a"), opLeave("a", "b"))
 		add(s+"leave-vs-reserve-freed-seat", seats, seated(seats-1), opLeave("a"), opReserve("x", 0))
 		add(s+"update-vs-reserve", seats, seated(1), opUpdate([]pt.JoinPlayer{jp("x", -1)}, []string{"a"}), opReserve("y", -1))
+		// a reserved player confirming the seat (PlayerJoin feeds the engine's join gate) while others reserve
+		reservedOnly := func(td *TD) bool { return td.te.PlayerReserve(jp("a", 0)) == nil }
+		add(s+"join-vs-reserve", seats, reservedOnly, opJoin("a"), opReserve("x", -1))
+		// (join vs leave is deliberately not a scenario: PlayerJoin is not among the calls the property quantifies
+		// over and is not serialised with departures - see DESIGN.md 7)
 		add(s+"update-vs-update", seats, seated(1), opUpdate([]pt.JoinPlayer{jp("x", 1)}, nil), opUpdate([]pt.JoinPlayer{jp("y", 1)}, []string{"a"}))
 	}
 	if tier == "thorough" {
@@ -509,6 +517,9 @@ func init() {
 				b := bound
 				if len(sc.ops) >= 3 && b > 2 {
 					b = 2
+				}
+				if sc.name == "seats2/join-vs-reserve" && b < 2 {
+					b = 2 // the join gate's own goroutine is a third party: its dead-lock against a reservation needs two preemptions
 				}
 				ss = append(ss, &Suite{Name: "c16/" + sc.name, Bound: b, Weight: len(sc.ops), Run: sc.run})
 			}
